@@ -63,19 +63,18 @@ def sd : Side → String | .L => "L" | .R => "R"
 def pcName : Pc → String
   | .idle => "idle" | .rdCalled => "rdCalled" | .rdCL _ => "rdCL" | .rdInc _ => "rdInc" | .rdGot _ _ => "rdGot"
   | .rdHold _ _ => "rdHold" | .rdRel _ _ => "rdRel" | .rdRelD => "rdRelD"
-  | .wCalled _ => "wCalled" | .wLocked _ => "wLocked" | .wRL _ _ => "wRL" | .wF1 _ _ => "wF1" | .wF1d _ _ => "wF1d"
-  | .wRb _ _ => "wRb" | .wRbC _ _ => "wRbC" | .wRbD _ _ => "wRbD" | .wTog _ _ => "wTog" | .wCL _ _ _ => "wCL"
-  | .wW1 _ _ _ => "wW1" | .wTogC _ _ _ => "wTogC" | .wW2 _ _ => "wW2" | .wF2 _ _ => "wF2" | .wF2d _ _ => "wF2d"
+  | .wCalled _ => "wCalled" | .wA _ _ => "wA" | .wF1 _ _ => "wF1" | .wF1d _ _ => "wF1d"
+  | .wRb _ _ => "wRb" | .wRbC _ _ => "wRbC" | .wRbD _ _ => "wRbD" | .wWait _ _ _ _ => "wWait"
+  | .wF2 _ _ => "wF2" | .wF2d _ _ => "wF2d"
   | .wRf _ _ => "wRf" | .wRfC _ _ => "wRfC" | .wRfD _ _ => "wRfD" | .wRet _ => "wRet" | .wExc _ _ => "wExc"
 
 def pcDescr : Pc → String
   | .rdCL c => s!"rdCL({sd c})" | .rdInc c => s!"rdInc({sd c})" | .rdGot c x => s!"rdGot(cnt={sd c},side={sd x})"
   | .rdHold c x => s!"rdHold(cnt={sd c},side={sd x})" | .rdRel c x => s!"rdRel(cnt={sd c},side={sd x})"
-  | .wRL op l => s!"wRL(op={op},rl={sd l})" | .wF1 op l => s!"wF1(op={op},rl={sd l})" | .wF1d op l => s!"wF1d(op={op},rl={sd l})"
+  | .wA op l => s!"wA(op={op},rl={sd l})" | .wF1 op l => s!"wF1(op={op},rl={sd l})" | .wF1d op l => s!"wF1d(op={op},rl={sd l})"
   | .wRb op l => s!"wRb(op={op},rl={sd l})" | .wRbC op l => s!"wRbC(op={op},rl={sd l})"
-  | .wTog op l => s!"wTog(op={op},rl={sd l})" | .wCL op l c => s!"wCL(op={op},rl={sd l},cl={sd c})"
-  | .wW1 op l c => s!"wW1(op={op},rl={sd l},cl={sd c})" | .wTogC op l c => s!"wTogC(op={op},rl={sd l},cl={sd c})"
-  | .wW2 op l => s!"wW2(op={op},rl={sd l})" | .wF2 op l => s!"wF2(op={op},rl={sd l})"
+  | .wWait op l zL zR => s!"wWait(op={op},rl-at-lock={sd l},zeroSeenL={zL},zeroSeenR={zR})"
+  | .wF2 op l => s!"wF2(op={op},rl={sd l})"
   | .wRf op l => s!"wRf(op={op},rl={sd l})" | .wRfC op l => s!"wRfC(op={op},rl={sd l})"
   | p => pcName p
 
@@ -91,44 +90,54 @@ def edge (s : St) (t : Tid) (e : Ev) : String :=
   | .rdHold _ _, .rd x _ => s!"rdHold/rd-{sd x}"
   | .rdHold _ _, .call .rel => "rdHold/call-rel"
   | .rdRel _ _, .dec c _ => s!"rdRel/dec-{sd c}"
-  | .wLocked _, .ldRL v => s!"wLocked/ldRL-{sd v}"
-  | .wTog _ _, .ldCL v => s!"wTog/ldCL-{sd v}"
-  | .wCL _ _ _, .ldCnt _ v => if v = 0 then "wCL/ldCnt-zero" else "wCL/ldCnt-nonzero"
-  | .wTogC _ _ _, .ldCnt _ v => if v = 0 then "wTogC/ldCnt-zero" else "wTogC/ldCnt-nonzero"
-  | .wCL _ _ _, .yld => "wCL/yld"
-  | .wTogC _ _ _, .yld => "wTogC/yld"
-  | .wRL _ _, .fBegin _ => "wRL/fBegin"
-  | .wRL _ _, .uth => "wRL/uth"
+  | .wCalled _, .lock => s!"wCalled/lock-rl{sd s.rl}"
+  | .wA _ _, .ldRL _ => "wA/ldRL"
+  | .wA _ _, .fBegin _ => "wA/fBegin"
+  | .wA _ _, .uth => "wA/uth"
   | .wF1 _ _, .fEnd _ _ => "wF1/fEnd"
   | .wF1 _ _, .uth => "wF1/uth"
   | .wF1d _ _, .uth => "wF1d/uth"
   | .wF1d _ _, .stRL _ => "wF1d/stRL"
-  | .wW2 _ _, .fBegin _ => "wW2/fBegin"
-  | .wW2 _ _, .uth => "wW2/uth"
+  | .wWait _ _ _ _, .ldCL v => s!"wWait/ldCL-{sd v}"
+  | .wWait _ _ zL zR, .ldCnt c v =>
+      if v = 0 then s!"wWait/ldCnt-zero-{sd c}-{if zOf c.flip zL zR then "second" else "first"}"
+      else s!"wWait/ldCnt-nonzero-{if zL || zR then "second" else "first"}"
+  | .wWait _ _ zL zR, .yld => s!"wWait/yld-{if zL || zR then "second" else "first"}"
+  | .wWait _ _ _ _, .stCL _ => "wWait/stCL"
+  | .wWait _ _ _ _, .fBegin _ => "wWait/fBegin"
+  | .wWait _ _ _ _, .uth => "wWait/uth"
   | .wF2 _ _, .fEnd _ _ => "wF2/fEnd"
   | .wF2 _ _, .uth => "wF2/uth"
   | .wF2d _ _, .uth => "wF2d/uth"
   | .wF2d _ _, .unlock => "wF2d/unlock"
   | .wExc _ fwd, .exc _ => if fwd then "wExc/exc-second" else "wExc/exc-first"
-  | pc, ev => if pc.post && (stutter s ev).isSome then s!"{p}/stutter-load" else p
+  | pc, ev => if pc.post && (stutter s ev).isSome then s!"{p}/extra-load" else p
 
+/-- the coverage keys of today's code: every model edge it exercises must be seen in the quick tier -/
 def edges : List String :=
   ["idle/call-ls0", "idle/call-ls1", "idle/call-ls2", "idle/call-ls3", "idle/call-modify", "idle/fin",
    "rdCalled/ldCL-L", "rdCalled/ldCL-R", "rdCL/inc-L", "rdCL/inc-R",
    "rdInc/ldRL-cntL-sideL", "rdInc/ldRL-cntL-sideR", "rdInc/ldRL-cntR-sideL", "rdInc/ldRL-cntR-sideR",
    "rdGot", "rdHold/rd-L", "rdHold/rd-R", "rdHold/call-rel", "rdRel/dec-L", "rdRel/dec-R", "rdRelD",
-   "wCalled", "wLocked/ldRL-L", "wLocked/ldRL-R", "wRL/fBegin", "wRL/uth", "wF1/fEnd", "wF1/uth", "wF1d/uth", "wF1d/stRL",
-   "wRb", "wRbC", "wRbD", "wTog/ldCL-L", "wTog/ldCL-R", "wCL/ldCnt-zero", "wCL/ldCnt-nonzero", "wCL/yld", "wW1",
-   "wTogC/ldCnt-zero", "wTogC/ldCnt-nonzero", "wTogC/yld", "wW2/fBegin", "wW2/uth", "wF2/fEnd", "wF2/uth", "wF2d/uth",
+   "wCalled/lock-rlL", "wCalled/lock-rlR", "wA/ldRL", "wA/fBegin", "wA/uth", "wF1/fEnd", "wF1/uth", "wF1d/uth", "wF1d/stRL",
+   "wRb", "wRbC", "wRbD", "wWait/ldCL-L", "wWait/ldCL-R",
+   "wWait/ldCnt-zero-L-first", "wWait/ldCnt-zero-R-first", "wWait/ldCnt-zero-L-second", "wWait/ldCnt-zero-R-second",
+   "wWait/ldCnt-nonzero-first", "wWait/ldCnt-nonzero-second", "wWait/yld-first", "wWait/yld-second", "wWait/stCL",
+   "wWait/fBegin", "wWait/uth", "wF2/fEnd", "wF2/uth", "wF2d/uth",
    "wF2d/unlock", "wRf", "wRfC", "wRfD", "wRet", "wExc/exc-first", "wExc/exc-second"]
 
 def showList (l : List Nat) : String := if l.isEmpty then "-" else ".".intercalate (l.map toString)
 
-def comp : Comp :=
-  { name := "lr", St := St, Ev := Ev,
-    init := fun _ => some init,
+def mkComp (name : String) (strict : Bool) : Comp :=
+  { name := name, St := St, Ev := Ev,
+    init := fun _ => some (init strict),
     Aux := Unit, aux0 := (), parse := fun a _ ts => (a, parse ts), step := step, edge := edge, edges := edges,
     descr := fun s t =>
       s!"pc={pcDescr (s.pc t)} rl={sd s.rl} cl={sd s.cl} lc={s.regL.length} rc={s.regR.length} mtx={s.mtx} left={showList s.valL} right={showList s.valR} committed={showList s.committed}" }
+
+/-- safety discipline (C03, C20) -/
+def comp : Comp := mkComp "lr" false
+/-- safety + writer-progress discipline (C14) -/
+def compStrict : Comp := mkComp "lr_strict" true
 
 end Driver.LRD
